@@ -41,7 +41,7 @@ HOSTILE = ['plain', 'restart_run', 'my restart 7', 'rl = 2 test', 'it = 5', 'a->
 
 
 def cases(tier, sd):
-    n = 40 if tier == "quick" else 800
+    n = 72 if tier == "quick" else 800
     out = [dict(kind='catalogue', seed=30000 * sd + i) for i in range(n)]
     out += [dict(kind='names', seed=30000 * sd + i) for i in range(4 if tier == "quick" else 20)]
     out += [dict(kind='par', seed=30000 * sd + i) for i in range(4 if tier == "quick" else 20)]
@@ -133,8 +133,12 @@ def gen_cat_spec(seed):
         # out_every changed once (at restart 1) and then stayed: 2, 4, 4, ...
         nres = max(nres, int(rng.integers(3, 6)))
         vary = False
+    cap_next = None
     for r in range(nres):
         length = int(rng.integers(1 if change_once else 0, 4))
+        if cap_next is not None and rng.random() < 0.6:
+            length = min(length, cap_next)        # ... and stops before the earlier one did
+        cap_next = None
         bs = 2 ** (nlev - 1) * 4
         if change_once and r == 1:
             strides = {rl: (2 * v if 2 * v <= bs else v // 2 or 1) for rl, v in strides.items()}
@@ -162,10 +166,12 @@ def gen_cat_spec(seed):
         restarts.append(rs)
         if length == 0 and rng.random() < 0.5:
             pass        # died right after its first output: the next one starts from the same point
-        elif length >= 2 and rng.random() < 0.25:
+        elif length >= 2 and rng.random() < 0.4:
             # the next restart recovers from an earlier checkpoint of this one
             # (and may well stop before this one did)
-            start += int(rng.integers(1, length)) * bs
+            k_ = int(rng.integers(1, length))
+            start += k_ * bs
+            cap_next = max(length - k_ - 1, 1)
         else:
             start += max(length, 1) * bs
     spec['restarts'] = restarts
